@@ -3,6 +3,7 @@ package sched
 import (
 	"fmt"
 	"math/rand"
+	"sort"
 
 	"pgregory.net/rapid"
 )
@@ -40,4 +41,34 @@ func seq(n int) []int {
 // internal skiplists, writer PRNG seeds) a function of the drawn case.
 func SeedRand(t *rapid.T) {
 	rand.Seed(int64(rapid.IntRange(1, 1<<30).Draw(t, "randseed")))
+}
+
+// DrawHotPlans draws Sched.Hot: for each point a plan of up to n entries, half of them 0 (no parking), the
+// others the number of scheduling steps the yielding thread stays parked.
+func DrawHotPlans(t *rapid.T, points []int, n, maxPark int) map[int][]int {
+	out := map[int][]int{}
+	for _, p := range points {
+		plan := rapid.SliceOfN(rapid.IntRange(-maxPark, maxPark), 0, n).Draw(t, "hotplan")
+		for i, v := range plan {
+			if v < 0 {
+				plan[i] = 0
+			}
+		}
+		out[p] = plan
+	}
+	return out
+}
+
+// FmtHot renders hot plans in point order.
+func FmtHot(h map[int][]int) string {
+	var ks []int
+	for k := range h {
+		ks = append(ks, k)
+	}
+	sort.Ints(ks)
+	s := ""
+	for _, k := range ks {
+		s += fmt.Sprintf(" %d:%v", k, h[k])
+	}
+	return s
 }
